@@ -19,6 +19,27 @@ fn rmul(a: Rat, b: Rat) -> Rat {
     Rat::new(a.n * b.n, a.d * b.d)
 }
 
+/// one time in four, multiply dir and/or up by 10^-9 .. 10^6
+fn rescale(rng: &mut Rng, dir: Vec<Rat>, up: Vec<Rat>) -> (Vec<Rat>, Vec<Rat>) {
+    if !rng.chance(1, 4) {
+        return (dir, up);
+    }
+    let pick = |rng: &mut Rng| -> Rat {
+        let e = rng.pick(&[-9i32, -8, -6, -4, -2, 2, 4, 6]);
+        if e < 0 {
+            Rat::new(1, 10i64.pow((-e) as u32))
+        } else {
+            Rat::int(10i64.pow(e as u32))
+        }
+    };
+    let (kd, ku) = match rng.below(3) {
+        0 => (pick(rng), Rat::int(1)),
+        1 => (Rat::int(1), pick(rng)),
+        _ => (pick(rng), pick(rng)),
+    };
+    (dir.iter().map(|x| rmul(*x, kd)).collect(), up.iter().map(|x| rmul(*x, ku)).collect())
+}
+
 /// class 0: exact configuration (every normalisation is a rational square
 /// root); class 1: arbitrary rational eye/dir/up in general position
 fn g_view(rng: &mut Rng, tier: Tier) -> Case {
@@ -48,6 +69,8 @@ fn g_view(rng: &mut Rng, tier: Tier) -> Case {
         let up: Vec<Rat> = (0..3)
             .map(|i| rmul(k, radd(radd(rmul(Rat::int(b), u[i]), rmul(cc, f[i])), rmul(Rat::int(e), s[i]))))
             .collect();
+        // lengths are irrelevant to the statement: very short or long dir / up are as valid as unit ones
+        let (dir, up) = rescale(rng, dir, up);
         c.push_r(&eye).push_r(&dir).push_r(&up);
         c.nontrivial = dir.iter().all(|x| !x.is_zero());
     } else {
@@ -64,6 +87,7 @@ fn g_view(rng: &mut Rng, tier: Tier) -> Case {
             let cr = [d[1] * u[2] - d[2] * u[1], d[2] * u[0] - d[0] * u[2], d[0] * u[1] - d[1] * u[0]];
             let n = |v: &[f64]| (v[0] * v[0] + v[1] * v[1] + v[2] * v[2]).sqrt();
             if n(&cr) >= 0.05 * n(&d) * n(&u) {
+                let (dir, up) = rescale(rng, dir, up);
                 c.push_r(&eye).push_r(&dir).push_r(&up);
                 break;
             }
